@@ -3,7 +3,9 @@
 //! /repo's working tree, and writes inputs + observations as Coq terms for the model side.
 mod out;
 mod rng;
+mod c12;
 mod c14;
+mod probes;
 
 use std::path::PathBuf;
 
@@ -22,6 +24,7 @@ fn main() {
         std::process::exit(2);
     }
     let cmd = argv[1].clone();
+    if cmd == "probe" { probes::run(&argv[2]); return; }
     let mut a = Args { prop: argv[2].clone(), seed: 1, n: 300, tier: "quick".into(), out: PathBuf::from("work") };
     let mut i = 3;
     while i < argv.len() {
@@ -33,7 +36,10 @@ fn main() {
             x => { eprintln!("unknown arg {}", x); std::process::exit(2); }
         }
     }
+    out::start_watchdog();
+    std::panic::set_hook(Box::new(|_| {}));
     match (cmd.as_str(), a.prop.as_str()) {
+        ("gen", "C12") => c12::gen(&a),
         ("gen", "C14") => c14::gen(&a),
         _ => { eprintln!("unknown command/property"); std::process::exit(2); }
     }
